@@ -9,6 +9,7 @@ import (
 	"path/filepath"
 	"sort"
 	"strings"
+	"time"
 
 	"github.com/jf-tech/omniparser/idr"
 
@@ -107,6 +108,7 @@ func main() {
 				Kind     string   `json:"kind"`
 				Text     string   `json:"text"`
 				Schema   string   `json:"schema"`
+				Format   string   `json:"format"`
 				Docs     []string `json:"docs"`
 				XPath    string   `json:"xpath"`
 				Schedule []int    `json:"schedule"`
@@ -133,6 +135,8 @@ func main() {
 		case "xml-interleave":
 			failed = runInterleave(sum, ilCase{Kind: rp.Case.Kind, Docs: rp.Case.Docs, XPath: rp.Case.XPath,
 				Schedule: rp.Case.Schedule, Release: rp.Case.Release}, true)
+		case "doc-seq":
+			failed = runDocSeq(sum, seqCase{Kind: rp.Case.Kind, Format: rp.Case.Format, Docs: rp.Case.Docs, XPath: rp.Case.XPath}, true)
 		case "json-seq":
 			failed = runJSONSeq(sum, rp.Case.Text, rp.Case.Schema, true)
 		default:
@@ -187,9 +191,39 @@ func main() {
 	}
 
 	// ---- fixed parts of every run: boundary numbers, very large single records ----
+	t0 := time.Now()
+	lap := func(what string) {
+		if os.Getenv("C08_TIMING") != "" {
+			fmt.Fprintf(os.Stderr, "%-12s %v\n", what, time.Since(t0))
+		}
+		t0 = time.Now()
+	}
+	// good, bad, good document sequences.  A failure here means process-wide state (the node pool)
+	// is damaged: everything that follows would fail for that reason, or kill the process inside the
+	// library, so the run ends with this counterexample.
+	for i, k := 0, o.Count(150, 3000)+2; i < k; i++ {
+		fixed := 0
+		if i < 2 {
+			fixed = i + 1
+		}
+		emptyPool = i < 2 || i%8 == 0
+		if genDocSeq(r, sum, fixed) {
+			cw.Flush()
+			sum.CaseFiles = cw.Files
+			sum.Write(o)
+			return
+		}
+	}
+	emptyPool = true
+	lap("docseq")
 	boundaryDocs(sum, cw)
+	lap("boundary")
 	bigDocs(r, sum, cw)
+	lap("bigjson")
 	bigXMLDocs(r, sum, cw)
+	lap("bigxml")
+	escapeDocs(sum, cw)
+	crDocs(sum, cw)
 	genInterleave(r, sum, true)
 	for i, k := 0, o.Count(150, 3000); i < k; i++ {
 		genInterleave(r, sum, false)
@@ -198,7 +232,8 @@ func main() {
 		genJSONSeq(r, sum)
 	}
 
-	total := o.Count(2600, 52000)
+	lap("interleave+jsonseq")
+	total := o.Count(2000, 52000)
 	for c := 0; c < total; c++ {
 		if c%2 == 0 {
 			genJSONCase(r, sum, cw)
@@ -206,6 +241,7 @@ func main() {
 			genXMLCase(r, sum, cw)
 		}
 	}
+	lap("generated")
 	cw.Flush()
 	sum.CaseFiles = cw.Files
 	sum.Write(o)
